@@ -164,8 +164,15 @@ class Sim:
         return self.by_ident.get(_thread.get_ident())
 
     def active(self):
-        """True iff the calling thread is a simulated thread of a live run."""
-        return (not self.finished) and _thread.get_ident() in self.by_ident
+        """True iff the calling thread is a simulated thread of a live run
+        that has not ended yet.  A carrier that has given the baton away for
+        good (state DONE) may still run finalisers while it winds down - a
+        worker object's last reference can die with the carrier's frame -
+        and those must not touch the scheduler."""
+        if self.finished:
+            return False
+        st = self.by_ident.get(_thread.get_ident())
+        return st is not None and st.state != DONE
 
     def role_for(self, owner):
         name = type(owner).__name__
@@ -427,8 +434,24 @@ class Sim:
         self.cur = nxt
         if not final:
             me.parked = True
+        was_parked = nxt.parked
         nxt.parked = False
-        nxt.lock.release()
+        try:
+            nxt.lock.release()
+        except RuntimeError:
+            # must never happen (a thread is released exactly once per park):
+            # leave as much context as possible in the harness error
+            self.harness_error = (
+                "baton error: releasing %r whose lock is not held "
+                "(was_parked=%r, me=%r, final=%r, steps=%d, cur=%r)\n"
+                "threads=%r\nlast events=%r" % (
+                    nxt, was_parked, me, final, self.steps, self.cur,
+                    [(t.role, t.state, t.block_kind, t.parked)
+                     for t in self.threads], self.log[-25:]))
+            self._teardown()
+            if not final:
+                raise SimAbort()
+            return
         if final:
             return
         me.lock.acquire()
@@ -467,8 +490,8 @@ class Sim:
     def step(self, op, detail=None):
         """Yield point.  No-op outside the simulation."""
         me = self.by_ident.get(_thread.get_ident())
-        if me is None or self.finished:
-            if self.aborting and me is not None:
+        if me is None or self.finished or me.state == DONE:
+            if self.aborting and me is not None and me.state != DONE:
                 raise SimAbort()
             return False
         if self.aborting:
